@@ -65,21 +65,49 @@ def main():
                 log["steps"]["suite_tail"] = out[-1500:]
         # demonstration
         demos = [f for f in glob.glob(os.path.join(src, "*_test.go"))]
+        demo_dir = "."
+        for a in sys.argv:
+            if a.startswith("--demo-dir="):
+                demo_dir = a.split("=", 1)[1]
+        log["steps"]["demo_dir"] = demo_dir
         for d in demos:
-            shutil.copy(d, os.path.join(wt, os.path.basename(d)))
+            shutil.copy(d, os.path.join(wt, demo_dir, os.path.basename(d)))
         if demos:
-            rc1, out1 = sh("go test -vet=off -count=1 -run 'Verif|Demo|Seed' .", cwd=wt, env=env)
+            import re as _re
+            names = sorted({n for d in demos for n in _re.findall(r"^func (Test\w+)\(", open(d).read(), _re.M)})
+            runpat = "^(" + "|".join(names) + ")$" if names else "Verif|Demo|Seed"
+            demo_cmd = "go test -vet=off -count=1 -run '%s' ." % runpat
+            log["steps"]["demo_cmd"] = demo_cmd
+            rc1, out1 = sh(demo_cmd, cwd=os.path.join(wt, demo_dir), env=env)
             log["steps"]["demo_fails_with_change"] = rc1 != 0
             sh(["git", "apply", "-R", patch], cwd=wt)
-            rc2, out2 = sh("go test -vet=off -count=1 -run 'Verif|Demo|Seed' .", cwd=wt, env=env)
+            rc2, out2 = sh(demo_cmd, cwd=os.path.join(wt, demo_dir), env=env)
             log["steps"]["demo_passes_without_change"] = rc2 == 0
             log["steps"]["demo_output_with_change_tail"] = out1[-800:]
             sh(["git", "apply", patch], cwd=wt)
             for d in demos:
-                os.remove(os.path.join(wt, os.path.basename(d)))
+                os.remove(os.path.join(wt, demo_dir, os.path.basename(d)))
         # the check, on a private copy of the framework
         rc, out = sh("rsync -a --exclude replays --exclude 'build/gocache' --exclude '.git' %s/ %s/" % (VERIF, vc))
         assert rc in (0, 24), out      # 24 = a file vanished while copying (someone else's scratch file)
+        if "--wip" not in sys.argv:
+            # the private copy is the COMMITTED framework: uncommitted edits (builders at work) are reverted / removed
+            rc_, mod = sh("git -C %s ls-files -m" % VERIF)
+            for f in mod.split("\n"):
+                f = f.strip()
+                if f and not f.startswith("evidence/"):
+                    r2 = subprocess.run(["git", "-C", VERIF, "show", "HEAD:" + f], stdout=subprocess.PIPE)
+                    if r2.returncode == 0:
+                        open(os.path.join(vc, f), "wb").write(r2.stdout)
+            rc_, unt = sh("git -C %s ls-files -o --exclude-standard" % VERIF)
+            for f in unt.split("\n"):
+                f = f.strip()
+                if f and os.path.exists(os.path.join(vc, f)):
+                    os.remove(os.path.join(vc, f))
+                    d_ = os.path.dirname(os.path.join(vc, f))
+                    while d_ != vc and os.path.isdir(d_) and not os.listdir(d_):
+                        os.rmdir(d_)
+                        d_ = os.path.dirname(d_)
         env2 = dict(env, VERIF_REPO=wt)
         t0 = time.time()
         rc, out = sh(["bin/check", cid, "quick"], cwd=vc, env=env2, timeout=5400)
@@ -90,12 +118,15 @@ def main():
         log["caught"] = (rc == 1 and bool(viol))
         dst = os.path.join(VERIF, "seeded", name)
         os.makedirs(dst, exist_ok=True)
-        shutil.copy(patch, os.path.join(dst, "patch.diff"))
+        def cp(a, b):
+            if os.path.abspath(a) != os.path.abspath(b):
+                shutil.copy(a, b)
+        cp(patch, os.path.join(dst, "patch.diff"))
         for d in demos:
-            shutil.copy(d, os.path.join(dst, os.path.basename(d)))
+            cp(d, os.path.join(dst, os.path.basename(d)))
         for extra in ("demo_howto.txt",):
             if os.path.exists(os.path.join(src, extra)):
-                shutil.copy(os.path.join(src, extra), os.path.join(dst, extra))
+                cp(os.path.join(src, extra), os.path.join(dst, extra))
         meta = {}
         try:
             meta = json.load(open(os.path.join(src, "meta.json")))
